@@ -239,6 +239,31 @@ def run_binary(ctx, op, sa, sb):
         return
     if not same_value(val, wantv, 0.0 if op in ('+', '-', '*', '/') else 1e-12):
         ctx.fail(tag + ':magnitude', '%s returned %s; magnitudes give %s' % (text, describe(got), np.asarray(wantv).tolist()))
+        return
+    # the augmented form (x = a; x += b) gives the same result and leaves the object that `a` names as it was: quantities are
+    # values (a second name for the same quantity, or the unit table's own object, must not change)
+    if op in ('+', '-', '*', '/') and A[2] and not arr:
+        keep, x = ra, ra
+        before = (keep.value, [float(e) for e in keep.units.exps])
+        try:
+            if op == '+':
+                x += rb
+            elif op == '-':
+                x -= rb
+            elif op == '*':
+                x *= rb
+            else:
+                x /= rb
+        except Exception as e:
+            ctx.fail(tag + ':augmented-raises-' + type(e).__name__, 'x = %s; x %s= %s raised %s: %s' % (describe(ra), op, describe(rb), type(e).__name__, e))
+            return
+        ctx.count()
+        k2, v2, d2 = unpack(x)
+        after = (keep.value, [float(e) for e in keep.units.exps])
+        if after != before:
+            ctx.fail('augmented-assignment-changes-the-other-name', 'a = %s; x = a; x %s= %s: a is now %s' % (describe(ra), op, describe(rb), describe(keep)))
+        elif k2 != kind or not same_value(v2, wantv, 0.0) or not all(abs(p - q) <= 1e-9 for p, q in zip(d2, wantd)):
+            ctx.fail(tag + ':augmented-differs', 'x = %s; x %s= %s gives %s, the plain operation %s' % (describe(ra), op, describe(rb), describe(x), describe(got)))
 
 
 def run_unary(ctx, op, sa, expo=None):
